@@ -72,6 +72,9 @@ class World:
         self.k = {
             "oct": OctKey.import_key(mt["oct"].k),
             "oct16": JWKRegistry.import_key(rk.to_jwk(mt["oct16"], True)),
+            # the same secret as a key object that declares what it may be used for (no "use")
+            "oct16-sig-ops": OctKey.import_key(mt["oct16"].k, {"key_ops": ["sign", "verify"]}),
+            "rsa-verify-ops": RSAKey(mt["rsa"].pub, mt["rsa"].pub, {"key_ops": ["verify"]}),
             "ec": ECKey.import_key(K.pem(mt["ec"], True)),
             "ec2": JWKRegistry.import_key(rk.to_jwk(mt["ec2"], True)),
             # built like generate_key does (native object, lazy JWK view); loading an RSA PEM costs 50 ms of key checks
@@ -233,6 +236,15 @@ def _ops():
     @op("sign-hs256-by-hs384-registry", "refuse")
     def _(w): return jws.serialize_compact({"alg": "HS256"}, b"m", w.k["oct"], registry=w.reg["jws-hs384"])
 
+    @op("sign-with-ops-restricted-key", "jws")
+    def _(w): return jws.serialize_compact({"alg": "HS256"}, b"m-ops", w.k["oct16-sig-ops"])
+
+    @op("wrap-with-sign-only-key", "refuse")
+    def _(w): return jwe.encrypt_compact({"alg": "A128KW", "enc": "A128GCM"}, b"p", w.k["oct16-sig-ops"])
+
+    @op("oaep-with-verify-only-key", "refuse")
+    def _(w): return jwe.encrypt_compact({"alg": "RSA-OAEP", "enc": "A128GCM"}, b"p", w.k["rsa-verify-ops"])
+
     @op("sign-json-general", "jws-json")
     def _(w):
         return jws.serialize_json([{"protected": {"alg": "ES256", "kid": "ec2"}}, {"protected": {"alg": "HS256"}, "header": {"kid": "oct16"}}],
@@ -352,6 +364,8 @@ def _ops():
     cons("claims-shared-ok", lambda w: w.claims_reg.validate({"sub": "alice", "aud": ["b", "z"], "exp": 1500, "iat": 1504}))
     cons("claims-shared-bad-aud", lambda w: w.claims_reg.validate({"sub": "alice", "aud": "z", "exp": 9999}))
     cons("claims-shared-missing", lambda w: w.claims_reg.validate({"aud": "a"}))
+    cons("verify-rs-with-verify-only-key", lambda w: jws.deserialize_compact(w.inputs["rs"], w.k["rsa-verify-ops"]).payload)
+    cons("unwrap-with-sign-only-key", lambda w: jwe.decrypt_compact(w.inputs["kw"], w.k["oct16-sig-ops"]).plaintext)
     cons("dec-wrong-key", lambda w: jwe.decrypt_compact(w.inputs["kw"], w.k["oct"]).plaintext)
 
     # ---- key operations touching lazy state -----------------------------
@@ -435,7 +449,7 @@ def _material_for(w: World, name: str):
         "sign-ps256": "rsa", "sign-es384": "p384", "sign-hs384-own-registry": "oct", "sign-7797": "oct", "jwt-encode": "ec",
         "enc-a128kw": "oct16", "enc-dir": "oct", "enc-ecdh-ec": "ec", "enc-ecdh-x25519": "x", "enc-oaep": "rsa",
         "enc-gcmkw": "oct16", "enc-pbes2": "oct", "enc-set-random": "ec", "sign-shared-set": "ec2",
-        "sign-shared-set-random": "oct16", "jwt-encode-jwe": "oct16",
+        "sign-shared-set-random": "oct16", "jwt-encode-jwe": "oct16", "sign-with-ops-restricted-key": "oct16",
     }.get(name)
 
 
